@@ -61,6 +61,15 @@ for s in payload["items"]:
             if len(begins) == 1 and not others:
                 rec["ptree"] = ptree(begins[0])
             rec["tree_full"] = bool(g.tree_full)
+            # the exposed tree must not change when the object is used
+            for use in ("get_smiles", "summary", "get_smiles"):
+                try:
+                    getattr(g, use)()
+                except Exception:
+                    pass
+            t2 = g.get_tree()
+            rec["nodes_after"] = [[int(n), t2.nodes[n]["type"].get_name(full=True)] for n in t2.nodes] if t2 is not None else None
+            rec["edges_after"] = [[int(a), int(b), t2.get_edge_data(a, b)["type"]] for a, b in t2.edges()] if t2 is not None else None
     except Exception as e:
         rec["exc"] = type(e).__name__ + ": " + str(e)[:200]
     out.append(rec)
